@@ -882,3 +882,36 @@ Proof.
   apply clean_mapM. intros i Hi. apply (Permutation_in _ Hp) in Hi. apply in_seq in Hi.
   unfold elem_at. destruct (nth_error arr i) eqn:Ei; [exact I|]. apply nth_error_None in Ei. lia.
 Qed.
+
+(* the parts of [std_sort_correct] as separate statements about any Ok answer *)
+Section StdSortParts.
+  Variables (A K E : Type) (keyf : A -> outcome K E) (cmp : K -> K -> outcome comparison E).
+  Variables (kf : A -> K) (c : K -> K -> comparison) (arr r : list A).
+  Hypothesis TP : total_preorder c.
+  Hypothesis HK : keys_pure A K E keyf kf arr.
+  Hypothesis HC : cmp_pure A K E cmp kf c arr.
+
+  Lemma std_sort_total : exists r', std_sort keyf cmp arr = Ok r'.
+  Proof. destruct (std_sort_correct A K E keyf cmp kf c TP arr HK HC) as [r' [Hr _]]. eauto. Qed.
+
+  Hypothesis H : std_sort keyf cmp arr = Ok r.
+
+  Lemma std_sort_perm : Permutation r arr.
+  Proof.
+    destruct (std_sort_correct A K E keyf cmp kf c TP arr HK HC) as [r' [Hr [HP _]]].
+    rewrite Hr in H; inversion H; subst; exact HP.
+  Qed.
+
+  Lemma std_sort_sorted : StronglySorted (fun x y => c (kf x) (kf y) <> Gt) r.
+  Proof.
+    destruct (std_sort_correct A K E keyf cmp kf c TP arr HK HC) as [r' [Hr [_ [HS _]]]].
+    rewrite Hr in H; inversion H; subst; exact HS.
+  Qed.
+
+  Lemma std_sort_stable :
+    forall k, filter (fun x => same_key c k (kf x)) r = filter (fun x => same_key c k (kf x)) arr.
+  Proof.
+    destruct (std_sort_correct A K E keyf cmp kf c TP arr HK HC) as [r' [Hr [_ [_ HT]]]].
+    rewrite Hr in H; inversion H; subst; exact HT.
+  Qed.
+End StdSortParts.
